@@ -205,6 +205,10 @@ def run_case(ctx, case):
                 await genuine_elsewhere(frame)
             if case.get("abandoned_refresh") and i % 12 == 0:
                 await abandoned_refresh(ac)
+                # a healthy refresh, even an abandoned one, may legitimately have brought news from the unit (e.g. the display
+                # state after an earlier toggle whose corrupted acknowledgement was dropped): what the client exposes NOW is
+                # the reference for the corrupted frames that follow (no exchange here - nothing may be cleaned up)
+                base = _snapshot(ac)
             c = bytearray(frame)
             c[pos] ^= x
             variants = [("plain", bytes(c))]
